@@ -104,6 +104,11 @@ func (vc *VC) run() (err error) {
 			return err
 		}
 		for _, oe := range outs {
+			if lh := vc.loops[b]; lh != nil && !lh.body[oe.to] {
+				// the loop is left through its head (range exhausted / condition false): ghost counter behind ndone(N)
+				nc := fmt.Sprintf("N_loopdone_%d", lh.ord)
+				oe.st.heap[nc] = vc.define(nc, "Int", sx("+", vc.heapGet(oe.st, nc, "Int"), "1"))
+			}
 			if li := vc.loops[oe.to]; li != nil && li.body[b] && oe.to.Dominates(b) {
 				if err := vc.backEdge(li, oe.st); err != nil {
 					return err
@@ -354,6 +359,9 @@ func (vc *VC) loopMods(li *loopInfo) *modSet {
 	for _, b := range blocks {
 		for _, ins := range b.Instrs {
 			vc.instrMods(ins, ms)
+		}
+		if l2 := vc.loops[b]; l2 != nil && l2 != li {
+			ms.comps[fmt.Sprintf("N_loopdone_%d", l2.ord)] = "Int" // ghost completion counter of an inner loop
 		}
 	}
 	return ms
